@@ -184,6 +184,11 @@ func registerSym(e *Engine) {
 		})
 		return nil
 	}
+	s["FreeRun"] = func(p *Path, th *Thread, fr *frame, a []Value) Value { return nil }
+	s["NoBlock"] = func(p *Path, th *Thread, fr *frame, a []Value) Value {
+		p.call(th, fr, a[0], nil)
+		return nil
+	}
 	s["Yield"] = func(p *Path, th *Thread, fr *frame, a []Value) Value { p.yield(th); return nil }
 	s["Tier"] = func(p *Path, th *Thread, fr *frame, a []Value) Value { return mkInt(int64(p.eng.tier)) }
 	s["Symbolic"] = func(p *Path, th *Thread, fr *frame, a []Value) Value { return TrueT }
